@@ -1,24 +1,27 @@
 ----------------------------- MODULE AbsOps -----------------------------
 (***************************************************************************)
 (* The sequential meaning of flurry's per-key operations on an abstract    *)
-(* map  m : Key -> entry,  entry = [v |-> value uid, tag |-> key tag].     *)
-(* uid 0 means "absent".  Keys are compared by id only; the tag says which *)
-(* key *instance* is stored ("the key stored first is kept").              *)
-(* For sets the value uid is always 1.                                     *)
+(* map  m : Key -> entry,  entry = [v |-> value uid, tag |-> key tag,      *)
+(* pl |-> payload].  uid 0 means "absent".  Keys are compared by id only;  *)
+(* the tag says which key *instance* is stored ("the key stored first is   *)
+(* kept").  The uid identifies the value *instance* (unique per inserted   *)
+(* value), the payload is its content.  For sets the value uid is 1.       *)
 (*                                                                         *)
-(* An operation is a record [op, k, tag, v, f]:                            *)
-(*   v   = uid of the value the call brings along (insert, try_insert,     *)
-(*         compute with f # "none")                                        *)
-(* A result is a record [ok, v, tag, ni, seen]:                            *)
+(* An operation is a record with at least [op, k, tag, v, pl, f]:          *)
+(*   v, pl = uid / payload of the value the call brings along (insert,     *)
+(*           try_insert, compute with f # "none")                          *)
+(*   f     = remapping function of compute: "inc" | "const" | "none"       *)
+(* A result is a record [ok, v, tag, ni, seen, pl]:                        *)
 (*   seen = uid handed to the remapping function (0 = not invoked)         *)
 (* Pure operators only: used by FlurryAbs (exhaustive), by the trace       *)
-(* specifications (Trace_Lin, Trace_Retain, ...) and by FlurrySeq.         *)
+(* specifications (Trace_Lin, Trace_Seq, ...) and by FlurrySeq.            *)
 (***************************************************************************)
-EXTENDS Naturals, Sequences
+EXTENDS Naturals, Integers, Sequences
 
-Absent == [v |-> 0, tag |-> 0]
+Absent == [v |-> 0, tag |-> 0, pl |-> 0]
 Present(m, k) == m[k].v # 0
-Res(ok, v, tag, ni, seen) == [ok |-> ok, v |-> v, tag |-> tag, ni |-> ni, seen |-> seen]
+Res(ok, v, tag, ni, seen, pl) == [ok |-> ok, v |-> v, tag |-> tag, ni |-> ni, seen |-> seen, pl |-> pl]
+NoRes == Res(0, 0, 0, 0, 0, 0)
 B(b) == IF b THEN 1 ELSE 0
 
 ReadOps == {"get", "get_key_value", "contains_key", "contains"}
@@ -29,39 +32,39 @@ PerKeyOps == ReadOps \cup UpdateOps
 ApplyState(m, o) ==
   LET k == o.k IN
   CASE o.op = "insert" ->
-         [m EXCEPT ![k] = [v |-> o.v, tag |-> IF Present(m, k) THEN m[k].tag ELSE o.tag]]
+         [m EXCEPT ![k] = [v |-> o.v, tag |-> IF Present(m, k) THEN m[k].tag ELSE o.tag, pl |-> o.pl]]
     [] o.op = "try_insert" ->
-         IF Present(m, k) THEN m ELSE [m EXCEPT ![k] = [v |-> o.v, tag |-> o.tag]]
+         IF Present(m, k) THEN m ELSE [m EXCEPT ![k] = [v |-> o.v, tag |-> o.tag, pl |-> o.pl]]
     [] o.op \in {"remove", "remove_entry", "take"} -> [m EXCEPT ![k] = Absent]
     [] o.op = "compute" ->
          IF ~Present(m, k) THEN m
          ELSE IF o.f = "none" THEN [m EXCEPT ![k] = Absent]
-         ELSE [m EXCEPT ![k].v = o.v]
+         ELSE [m EXCEPT ![k].v = o.v, ![k].pl = IF o.f = "inc" THEN @ + 1 ELSE o.pl]
     [] OTHER -> m
 
 \* result of op in state m
 ApplyResult(m, o) ==
   LET k == o.k  p == Present(m, k)  e == m[k] IN
-  CASE o.op = "get" -> Res(B(p), e.v, 0, 0, 0)
-    [] o.op = "get_key_value" -> Res(B(p), e.v, e.tag, 0, 0)
-    [] o.op \in {"contains_key", "contains"} -> Res(B(p), 0, 0, 0, 0)
-    [] o.op = "insert" -> Res(B(p), e.v, 0, 0, 0)
-    [] o.op = "try_insert" -> IF p THEN Res(0, e.v, 0, o.v, 0) ELSE Res(1, o.v, 0, 0, 0)
-    [] o.op = "remove" -> Res(B(p), e.v, 0, 0, 0)
-    [] o.op \in {"remove_entry", "take"} -> Res(B(p), e.v, e.tag, 0, 0)
+  CASE o.op = "get" -> Res(B(p), e.v, 0, 0, 0, 0)
+    [] o.op = "get_key_value" -> Res(B(p), e.v, e.tag, 0, 0, 0)
+    [] o.op \in {"contains_key", "contains"} -> Res(B(p), 0, 0, 0, 0, 0)
+    [] o.op = "insert" -> Res(B(p), e.v, 0, 0, 0, 0)
+    [] o.op = "try_insert" -> IF p THEN Res(0, e.v, 0, o.v, 0, 0) ELSE Res(1, o.v, 0, 0, 0, 0)
+    [] o.op = "remove" -> Res(B(p), e.v, 0, 0, 0, 0)
+    [] o.op \in {"remove_entry", "take"} -> Res(B(p), e.v, e.tag, 0, 0, 0)
     [] o.op = "compute" ->
-         IF ~p THEN Res(0, 0, 0, 0, 0)
-         ELSE IF o.f = "none" THEN Res(0, 0, 0, 0, e.v)
-         ELSE Res(1, o.v, 0, 0, e.v)
-    [] OTHER -> Res(0, 0, 0, 0, 0)
+         IF ~p THEN NoRes
+         ELSE IF o.f = "none" THEN Res(0, 0, 0, 0, e.v, 0)
+         ELSE Res(1, o.v, 0, 0, e.v, IF o.f = "inc" THEN e.pl + 1 ELSE o.pl)
+    [] OTHER -> NoRes
 
-\* Which fields of a logged result are meaningful for an operation (map flavour / set flavour).
-\* A logged result r matches the expected result x of operation o:
+\* A logged result r matches the expected result x of operation o (only the fields that are
+\* meaningful for the operation and the collection flavour are compared).
 Matches(o, r, x, isSet) ==
   /\ r.ok = x.ok
   /\ (~isSet /\ o.op \in {"get", "get_key_value", "insert", "try_insert", "remove", "remove_entry", "compute"})
         => r.v = x.v
-  /\ (o.op \in {"get_key_value", "remove_entry", "take"} \/ (isSet /\ o.op = "get")) => r.tag = x.tag
+  /\ (o.op \in {"get_key_value", "remove_entry", "take"}) => r.tag = x.tag
   /\ (~isSet /\ o.op = "try_insert") => r.ni = x.ni
-  /\ (o.op = "compute") => r.seen = x.seen
+  /\ (o.op = "compute") => (r.seen = x.seen /\ r.pl = x.pl)
 =============================================================================
